@@ -28,8 +28,30 @@ def hTar (j : Json) : Except String Json := do
         pure (stats.map fun s => ({ st := s, sha := ((snap.find? (·.st.path = s.path)).map (·.sha)).getD [] } : VEnt))
       else pure (kept.filterMap fun p => full.find? (·.st.path = p))
     | none => pure full
+  -- F24 (repaired): the hard-link reset is applied to the view; a promoted entry carries the bytes of its original link source
+  let view : List VEnt := if Fix.f24 then
+      let stats := F.hardlinkReset (view.map (·.st))
+      stats.map fun s =>
+        let orig := view.find? (·.st.path = s.path)
+        let srcSha := match orig with
+          | some o =>
+            if o.st.canRequestData && o.st.linkname ≠ [] then
+              ((full.find? (·.st.path = o.st.linkname)).map (·.sha)).getD o.sha
+            else o.sha
+          | none => []
+        { st := s, sha := if s.canRequestData && s.linkname = [] then srcSha else [] }
+    else view
   -- content token of a regular non-link entry; for on-disk views hard links carry the leader's bytes but no payload anyway
-  return jobj [("members", Json.arr ((members view).map memberJ).toArray),
+  let mut out := [("members", Json.arr ((members view).map memberJ).toArray),
                ("unsupported", toJson ((members view).any (·.tf = .unsupported)))]
+  -- "extracting it reproduces the view": the tree an independent extractor produced, judged by the C01 tree specification
+  -- against the view with mtimes to the second (what the archive can carry)
+  match j.getObjVal? "extracted" with
+  | .ok (.arr a) =>
+    let ex ← a.toList.mapM parseSnap
+    let viewSec := view.map fun v => { v with st := { v.st with mtime := roundSec v.st.mtime * 1000000000 } }
+    out := out ++ verdictJ "extract" (specSync {} [] ex viewSec)
+  | _ => pure ()
+  return jobj out
 
 end Drv
